@@ -21,7 +21,7 @@ cfg("inv_q", view=True, emit=False, FactorNames='= {"m", "km", "s", "h"}', MaxFa
 cfg("inv_t", view=True, emit=False,
     MaxFactors="= 2", MaxTFactors="= 2", Mags="<- M_two", ScaleKs="<- K_two", Kinds='= {"list", "array"}', Plan="<- Plan_inv2")
 # generation
-cfg("single_q", inv=LIGHT, FactorNames="<- N_all", TargetNames="<- N_small", MaxTFactors="= 2", Plan="<- Plan_conv1")
+cfg("single_q", inv=LIGHT, FactorNames="<- N_all", TargetNames="<- N_small", MaxTFactors="= 2", Plan="<- Plan_conv1", Mags="<- M_zero")
 cfg("single_t", inv=LIGHT, FactorNames="<- N_all", TargetNames="<- N_all", MaxTFactors="= 2", Mags="<- M_two", Plan="<- Plan_conv1")
 cfg("pair_q", inv=LIGHT, FactorNames="<- N_q7", TargetNames="<- N_q7", MaxFactors="= 2", MaxTFactors="= 2", Plan="<- Plan_conv1")
 cfg("pair_t", inv=LIGHT, FactorNames="<- N_mid", TargetNames="<- N_small", MaxFactors="= 2", MaxTFactors="= 2", Plan="<- Plan_conv1")
@@ -30,7 +30,7 @@ cfg("hist_q", inv=LIGHT, MaxFactors="= 1", MaxTFactors="= 1", Mags="<- M_one", S
     TargetPowers="<- P_pm1", TargetNames="<- N_small")
 cfg("hist_t", inv=LIGHT, FactorNames="<- N_q7", TargetNames="<- N_small", MaxFactors="= 1", MaxTFactors="= 1", Mags="<- M_one", ScaleKs="<- K_one",
     Kinds="<- Kinds_all", Plan="<- Plan_hist3t")
-cfg("reg_q", inv=LIGHT, FactorNames="<- N_mid", MaxFactors="= 1", RegPool="<- Regs12s", Plan="<- Plan_reg")
+cfg("reg_q", inv=LIGHT, FactorNames="<- N_mid", MaxFactors="= 1", Mags="<- M_zero", RegPool="<- Regs12s", Plan="<- Plan_reg")
 cfg("reg_t", inv=LIGHT, FactorNames="<- N_q7", MaxFactors="= 2", RegPool="<- Regs108s", Plan="<- Plan_reg", Powers="<- P_pm1")
 cfg("derived_q", inv=LIGHT, FactorNames='= {"m"}', Powers="<- P_one", RegPool="<- Regs12s", Keys="<- Keys_all", Plan="<- Plan_derived")
 cfg("derived_t", inv=LIGHT, FactorNames='= {"m"}', Powers="<- P_one", RegPool="<- Regs108s", Keys="<- Keys_all", Plan="<- Plan_derived")
@@ -38,5 +38,5 @@ cfg("own_t", inv=LIGHT, FactorNames='= {"m"}', Powers="<- P_one", RegPool="<- Re
 cfg("help_q", inv=LIGHT, FactorNames="<- N_tiny", MaxFactors="= 1", Powers="<- P_pm1", TargetPowers="<- P_pm1", Mags="<- M_pos", HelperNames="<- H_all", Plan="<- Plan_help2")
 cfg("help_t", inv=LIGHT, FactorNames="<- N_small", TargetNames="<- N_small", MaxFactors="= 1", MaxTFactors="= 2", Powers="<- P_pm1", TargetPowers="<- P_pm1",
     Mags="<- M_pos", HelperNames="<- H_all", Plan="<- Plan_help3")
-cfg("plain", inv=LIGHT, FactorNames="= {}", MaxFactors="= 0", Mags="<- M_two", ScaleKs="<- K_one", Plan="<- Plan_plain")
+cfg("plain", inv=LIGHT, FactorNames="= {}", MaxFactors="= 0", Mags="<- M_zero", ScaleKs="<- K_one", Plan="<- Plan_plain")
 cfg("bexp", inv=LIGHT, FactorNames="<- N_dimless", MaxFactors="= 2", Powers="<- P_pm1", Mags="<- M_exp", Plan="<- Plan_bexp")
